@@ -23,11 +23,12 @@ NCPU = int(os.environ.get("VERIF_JOBS", "0")) or min(16, os.cpu_count() or 1)
 
 
 def load_known(prop):
-    path = os.path.join(HERE, "known_findings.json")
-    if not os.path.exists(path):
-        return []
-    with open(path) as f:
-        items = json.load(f)
+    items = []
+    # known_findings.json (lead) plus one committed file per property under findings/
+    for path in (os.path.join(HERE, "known_findings.json"), os.path.join(HERE, "findings", f"{prop}.json")):
+        if os.path.exists(path):
+            with open(path) as f:
+                items += json.load(f)
     return [k for k in items if k.get("property") == prop]
 
 
